@@ -400,12 +400,22 @@ func c11Reason(strat uint8, issuerRegen tri, st entState) string {
 
 // ---- generator
 
-func genC11Base(r *Rng) (*Plan, *HistGen) {
+func genC11Base(r *Rng) (*Plan, *HistGen) { return genC11BaseMode(r, false) }
+
+// genC11BaseMode with farFuture=true gives every entity an absolute validity that is unexpired both
+// at the simulated clock and at the real clock, so that lane P can also exercise -e.
+func genC11BaseMode(r *Rng, farFuture bool) (*Plan, *HistGen) {
 	g := NewHistGen(r, "C11")
 	g.P.TZ = "UTC"
 	start := simEpoch.Add(time.Duration(g.P.Clock0) * time.Second)
-	expiryWorld := r.Chance(1, 2)
+	expiryWorld := r.Chance(1, 2) && !farFuture
+	if farFuture {
+		g.P.Meta["farfuture"] = "1"
+	}
 	val := func(r *Rng) *ValSpec {
+		if farFuture {
+			return &ValSpec{From: fmt.Sprintf("1999-%02d-%02d", r.Range(1, 12), r.Range(1, 28)), Until: fmt.Sprintf("21%02d-%02d-%02d", r.Range(10, 90), r.Range(1, 12), r.Range(1, 28))}
+		}
 		if !expiryWorld {
 			return valRelative(r)
 		}
@@ -419,7 +429,7 @@ func genC11Base(r *Rng) (*Plan, *HistGen) {
 		}
 		return valRelative(r)
 	}
-	g.AddForest(ForestOpts{MaxEnts: 4, MaxDepth: 3, Mix: KeyMix{EC: 1, Omit: 6}, MaxExts: 1, Aliases: r.Bool(), Dirs: r.Chance(1, 4), Validity: val}, r.Chance(1, 3))
+	g.AddForest(ForestOpts{MaxEnts: 4, MaxDepth: 3, Mix: KeyMix{EC: 1, Omit: 6}, MaxExts: 1, Aliases: r.Bool(), Dirs: r.Chance(1, 4), Validity: val}, r.Chance(1, 3) && !farFuture)
 	if r.Chance(9, 10) {
 		g.Run(DefaultFlags, "setup")
 	}
@@ -485,6 +495,11 @@ func exploreC11(t *testing.T, seed uint64, idx int, tier string, sink *Sink) {
 		pl.Add(Op{K: "run", Flags: 0, Tags: []string{"decide"}})
 		laneP_C11(t, pl, nil, sink)
 	}
+	if idx%16 == 8 {
+		ff, _ := genC11BaseMode(r, true)
+		ff.Add(Op{K: "run", Flags: 0, Tags: []string{"decide"}})
+		laneP_C11(t, ff, nil, sink)
+	}
 }
 
 // tamper bookkeeping: the oracle needs to know that a hash line was replaced by the actor.
@@ -518,14 +533,24 @@ var argVariants = []argVariant{
 	{[]string{"--generate-all", "--generate-missing=false", "--generate-changed=false"}, FlagA},
 	{[]string{"--generate-outdated", "--generate-changed=false", "--generate-missing=false"}, FlagO},
 	{[]string{"-m=false", "-c=false"}, 0},
+	// -e forms: only used in far-future worlds (index >= eVariantsFrom)
+	{[]string{"-e"}, FlagM | FlagC | FlagE},
+	{[]string{"-e", "-m=false", "-c=false"}, FlagE},
+	{[]string{"--generate-expired", "-c=false"}, FlagM | FlagE},
+	{[]string{"-e", "-o", "-c=false"}, FlagM | FlagE | FlagO},
 }
+
+const eVariantsFrom = 10
 
 func laneP_C11(t *testing.T, plan *Plan, _ *World, sink *Sink) {
 	if gopkiBin() == "" {
 		return
 	}
 	r := NewRng(Mix(plan.Seed, 1111))
-	v := Pick(r, argVariants)
+	v := Pick(r, argVariants[:eVariantsFrom])
+	if plan.Meta["farfuture"] != "" && r.Chance(2, 3) {
+		v = Pick(r, argVariants[eVariantsFrom:])
+	}
 	if plan.Meta["variant"] != "" {
 		i, _ := strconv.Atoi(plan.Meta["variant"])
 		v = argVariants[i%len(argVariants)]
